@@ -14,7 +14,8 @@ EXTENDS AdminPublishMC, Json
 
 AllKinds == SharedKinds \cup GlobalOnly \cup ScopedOnly
 ASSUME PrintT(<<"TABLE", ToJson([routes |-> RouteTab, policies |-> PolTab, defMaxBody |-> DefMaxBody, defMaxHeaders |-> DefMaxHeaders,
-                                 scopes |-> [s \in Scopes |-> ScopeRoute(s)],
+                                 scopes |-> [s \in Scopes |-> ScopeRoute(s)], reqs |-> ReqClasses,
+                                 gkinds |-> Kinds("global"), skinds |-> Kinds("scoped"),
                                  kinds |-> [k \in AllKinds |-> [groute |-> ItemRoute("global", "-", k), tspec |-> ItemTargetSpec(k)]]])>>)
 
 fl == Filler(fr.path, fr.scope)
